@@ -1,6 +1,7 @@
 package main
 
 import (
+	"go/types"
 	"fmt"
 	"sort"
 	"strings"
@@ -23,6 +24,7 @@ func runC09(c *Ctx) {
 	c09R2(c)
 	c09R3(c)
 	indexResolution(c, "R4")
+	memberResolutionOrder(c, "R8")
 	c.shared("R7", "C15/R3", "sort is not a mutating method: it works on a clone whose cells are fresh copies, so neither the order nor the cells of the receiver change", keyHas("sort-clone", "sort-subject", "array.sort effects"), func(s *Ctx) { c15R3(s, nativeMethods(s.P)) })
 	if eu := c.P.LangFunc("(*Evaluator).evalUnaryExpr"); eu != nil {
 		c.note("R5 incdec-table: ++ stores old+1 and -- old-1 into the operand's cell through evalAssignment; postfix yields the old number, prefix the updated value; the assignment's error is propagated (C11/R1).")
@@ -310,5 +312,45 @@ func classify(p *Program, r string, facts factSet, keyOK map[string]bool, kind m
 				kind["ValueNum"] = "array"
 			}
 		}
+	}
+}
+
+// memberResolutionOrder: an object's own key wins over a method of the same name
+func memberResolutionOrder(c *Ctx, rule string) {
+	p := c.P
+	c.note("%s own-key-before-prototype: GetMember is the addressing step of every member read and write. In its object arm the prototype is consulted only when the object has no own member under the key (the call is reached only on the `not present` edge of the map lookup); otherwise `o.length = 5` on an object that has a `length` key assigns to a throw-away bound method cell and changes nothing.", rule)
+	gm := p.LangFunc("(*Value).GetMember")
+	if gm == nil {
+		c.undecided(rule, "GetMember", "", "anchor not found")
+		return
+	}
+	ms := p.maySetOf(gm, "v.Tag", valueTagNames(p))
+	F := FactsOf(gm)
+	n := 0
+	for _, call := range callsIn(gm) {
+		if !staticCalleeIs(call, "(*lang.Value).protoMember") {
+			continue
+		}
+		tags := ms.At(call.Block())
+		if !(len(tags) == 1 && tags[0] == "ValueObj") {
+			continue
+		}
+		n++
+		absent := false
+		for f := range F.At(call.Block()) {
+			ex, ok := f.cond.(*ssa.Extract)
+			if !ok || ex.Index != 1 || f.truth {
+				continue
+			}
+			if lk, ok := ex.Tuple.(*ssa.Lookup); ok && lk.CommaOk {
+				if _, isMap := lk.X.Type().Underlying().(*types.Map); isMap && strings.Contains(p.RenderShort(lk.X), "v.Obj") {
+					absent = true
+				}
+			}
+		}
+		c.check(absent, rule, fmt.Sprintf("object-own-key-first #%d", n), p.InstrPos(call), "the prototype is consulted only when the key is absent", "in the object arm of GetMember the prototype lookup is not confined to the `key absent` edge of the object's own lookup: a method name shadows an own member of the same name, so assignments to that member are lost")
+	}
+	if n == 0 {
+		c.undecided(rule, "object-own-key-first", p.Pos(gm.Pos()), "no prototype lookup found in the object arm of GetMember")
 	}
 }
